@@ -70,6 +70,8 @@ def run(units=None, prop=None, backend="all", jobs=6):
         unit = os.path.basename(d)
         kind = unit_kind(unit)
         if kind is None: continue
+        reg = json.load(open(os.path.join(VERIF, "specs", "registered.json")))
+        if not units and unit not in reg["verus"] + reg["kani"]: continue
         if units and unit not in units: continue
         if backend != "all" and kind != backend: continue
         if prop and prop not in serves(unit, kind): continue
